@@ -128,6 +128,11 @@ fn pole_pos() -> BoxedStrategy<Pos> {
       let la = HALF_PI - (10.0f64).powi(-k);
       Pos::new(nudge(q as f64 * (PI / 4.0), n1), if south { -la } else { la }, "pole")
     }),
+    4 => (0.0f64..TWO_PI, 0.0f64..17.0, any::<bool>()).prop_map(|(lon, u, south)| {
+      // colatitude log-uniform in [1e-17, 1]
+      let la = HALF_PI - (10.0f64).powf(-u);
+      Pos::new(lon, if south { -la } else { la }, "pole")
+    }),
     1 => (prop::sample::select(vec![0.0f64, -0.0, f64::MIN_POSITIVE, 5e-324, -5e-324, 1e-300]), special_lat())
       .prop_map(|(lon, la)| Pos::new(lon, la, "pole")),
   ]
